@@ -7,6 +7,7 @@ From Coq Require Import List ZArith QArith Bool.
 From PV Require Import lib.Sx lib.Str lib.Result.
 From PV Require Import model.TimeRead spec.SpecTime model.Chain spec.SpecChain proofs.ChainFacts proofs.ChainDocFacts proofs.ChainSrtDocFacts proofs.ChainVttDocFacts.
 From PV Require model.TimeWrite model.TextWrite model.TextNodes.
+From PV Require model.DfxpWriteDoc model.DfxpReadLines proofs.DfxpWriteDocFacts proofs.ChainDfxpDocFacts.
 Import ListNotations.
 Open Scope Z_scope.
 
@@ -281,3 +282,35 @@ Proof. vm_compute. reflexivity. Qed.
 Example C08_sami_blank_at_node_boundary_refuted :
   TextWrite.sami_payload [TextNodes.NText (Str.lit "Hel"); TextNodes.NText (Str.lit "lo")] = Str.lit "Hel lo".
 Proof. vm_compute. reflexivity. Qed.
+
+(* ---- wave 7: DFXP hops at DOCUMENT level (string level) -----------------------------------------------------------
+   hop_doc FDfxp cs = the whole DFXP document DFXPWriter prints for the captions (DfxpWriteDoc.dfxp_write_doc, language
+   en-US; compared with the real writer's text on every run), read back by the string-level model of DFXPReader
+   (XmlRead.dfxp_read_string for the times: text -> tree -> the reader's queries; DfxpReadLines for the text of every
+   paragraph: its NavigableStrings and <br/>). *)
+Module DfxpHop.
+Import proofs.DfxpWriteDocFacts proofs.ChainDfxpDocFacts.
+
+(* one DFXP hop, whole document: every caption comes back, in order, with start and end floored to the millisecond
+   and with its text lines unchanged - for ANY list of captions with times below 24 h (no order or length condition)
+   whose text is clean lines *)
+Theorem C08_dfxp_roundtrip_string : forall cs, cs <> [] -> in_day cs -> text_dom cs = true ->
+  hop_doc FDfxp cs = Ok (floor_caps 1000 cs).
+Proof. exact dfxp_roundtrip_string. Qed.
+Print Assumptions C08_dfxp_roundtrip_string.
+
+(* every chain of SRT / MicroDVD / WebVTT / DFXP document hops returns the closed-form times AND the unchanged text *)
+Theorem C08_chain_doc_text_four_formats : forall chain cs lo, forallb line_fmt4 chain = true -> cs <> [] -> 0 <= lo ->
+  dom_u 40000 lo (times_of_caps cs) -> text_dom cs = true -> srt_text_dom cs = true -> vtt_text_dom cs = true ->
+  exists out, run_doc chain cs = Ok out /\ times_of_caps out = run chain (times_of_caps cs) /\ map snd out = map snd cs.
+Proof. exact run_doc_text4. Qed.
+Print Assumptions C08_chain_doc_text_four_formats.
+
+Example C08_ex_chain_with_dfxp :
+  let cs := [(1000999, 2500000, [Str.lit "hello"; Str.lit "a b"]); (3600000000, 3600079999, [Str.lit "x y"])] in
+  forallb line_fmt4 [FDfxp; FSrt; FDfxp; FMdvd; FVtt; FDfxp] = true /\
+  dom_u 40000 0 (times_of_caps cs) /\ text_dom cs = true /\ srt_text_dom cs = true /\ vtt_text_dom cs = true /\
+  run_doc [FDfxp; FSrt; FDfxp; FMdvd; FVtt; FDfxp] cs
+  = Ok [(1000000, 2480000, [Str.lit "hello"; Str.lit "a b"]); (3600000000, 3600040000, [Str.lit "x y"])].
+Proof. vm_compute. repeat split; try reflexivity; try discriminate. Qed.
+End DfxpHop.
